@@ -230,8 +230,8 @@ def c18_e(ctx: Ctx):
 @rule("C18-f")
 def c18_f(ctx: Ctx):
     """Per-job / per-entry loops are independent: nothing read in one iteration was computed in another."""
-    from .lints import per_item_loops
-    return per_item_loops(ctx, "C18-f", [('signac.schema:_build_job_statepoint_index', 'a key is reported with the values collected for the previous key'), ('signac.project:Project.detect_schema', 'a key is reported with the types collected for the previous key'), ('signac.diff:diff_jobs', "a job's diff is computed from another job's state point")])
+    from .lints import per_item_loops, late_binding_in_loops
+    return late_binding_in_loops(ctx, "C18-f", ("signac.schema", "signac.diff", "signac.project")) + per_item_loops(ctx, "C18-f", [('signac.schema:_build_job_statepoint_index', 'a key is reported with the values collected for the previous key'), ('signac.project:Project.detect_schema', 'a key is reported with the types collected for the previous key'), ('signac.diff:diff_jobs', "a job's diff is computed from another job's state point")])
 
 
 @rule("C18-g")
